@@ -1118,6 +1118,13 @@ class CompositeEnvelope:
         outcomes: Dict["BaseState", int]
         outcomes = {}
 
+        # Check the membership of the states
+        for s in states:
+            if not any(s is so for so in self.state_objs):
+                raise ValueError(
+                    "Given states have to be members of the composite envelope"
+                )
+
         # Compile the complete list of states
         state_list = list(states)
         if not separate_measurement:
@@ -1216,6 +1223,13 @@ class CompositeEnvelope:
         int: Outcome result of index
         """
 
+        # Check the membership of the states
+        for s in states:
+            if not any(s is so for so in self.state_objs):
+                raise ValueError(
+                    "Given states have to be members of the composite envelope"
+                )
+
         # Check if the operator dimensions match
         dim = jnp.prod(jnp.array([s.dimensions for s in states]))
         for op in operators:
@@ -1280,6 +1294,13 @@ class CompositeEnvelope:
         # Check the uniqueness of the states
         if len(states) != len(list(set(states))):
             raise ValueError("State list should contain unique elements")
+
+        # Check the membership of the states
+        for s in states:
+            if not any(s is so for so in self.state_objs):
+                raise ValueError(
+                    "Given states have to be members of the composite envelope"
+                )
 
         # Check if dimensions match
         dim = jnp.prod(jnp.array([s.dimensions for s in states]))
